@@ -971,7 +971,16 @@ func (fr *frame) visit(instr ssa.Instruction) continuation {
 	return kNext
 }
 
+// checkHashable: a key of interface type whose dynamic type is not comparable (map, slice, func)
+// cannot be hashed: the runtime panics
+func checkHashable(k Value) {
+	if ik, ok := k.(Iface); ok && ik.T != nil && !types.Comparable(ik.T) {
+		panic(goPanic{"runtime error: hash of unhashable type " + ik.T.String()})
+	}
+}
+
 func (e *Exec) mapSet(m *Map, k, v Value) {
+	checkHashable(k)
 	if isBStr(k) || m.hasSymKeys() {
 		if m.hasConds() {
 			panic(abort("update of a map with symbolic keys and conditional entries"))
@@ -1333,6 +1342,7 @@ func (e *Exec) lookup(ins *ssa.Lookup, x, idx Value) Value {
 		if st, ok := idx.(Stale); ok {
 			panic(staleRead{st.Where})
 		}
+		checkHashable(idx)
 		if isBStr(idx) || x.hasSymKeys() {
 			okT := x.symFind(idx)
 			v := zero(vt)
